@@ -767,10 +767,12 @@ func main() {
 	r := mc.Start("C10")
 	r.Rule("BFS over malloc/free histories on the real allocator module; a state is distinct by canonical key (globals, pages, every block header, live set); non-trivial = distinct state keys")
 
-	core := []int32{0, 1, 24, 25, 80, 81, 136}
+	// class-maximum alphabet: requests are equivalent for the allocator within a size class, and the
+	// class maximum is the most demanding witness for "at least as large as requested"
+	core := []int32{0, 24, 32, 48, 80, 128, 136}
 	full := []int32{0, 1, 8, 24, 25, 32, 33, 48, 49, 80, 81, 120, 128, 129, 136, 256, 4000}
 	var scs []scenario
-	dCore := mc.Pick(r, 6, 8)
+	dCore := mc.Pick(r, 6, 7)
 	dFull := mc.Pick(r, 4, 5)
 	dEdge := mc.Pick(r, 5, 6)
 	for _, variant := range []string{"malloc.wat", "runtime"} {
